@@ -161,7 +161,7 @@ func Calls(fn *ssa.Function, cs ...Callee) []*ssa.Call {
 			}
 		}
 	}
-	if InlineHelpers && !inHelperScan {
+	if InlineHelpers && !NoWiden && !inHelperScan {
 		inHelperScan = true
 		for _, h := range HelperCallees(fn) {
 			out = append(out, Calls(h, cs...)...)
@@ -172,6 +172,10 @@ func Calls(fn *ssa.Function, cs ...Callee) []*ssa.Call {
 }
 
 var inHelperScan bool
+
+// NoWiden temporarily switches the helper widening of Calls / WithClosures / ScanBlocks off (anchor finders first look
+// for a function that has the construct itself, and only then for one that has it through a helper).
+var NoWiden bool
 
 // CallsDeep lists calls in fn and all nested closures.
 func CallsDeep(fn *ssa.Function, cs ...Callee) []*ssa.Call {
@@ -185,7 +189,7 @@ func CallsDeep(fn *ssa.Function, cs ...Callee) []*ssa.Call {
 // WithClosures returns fn and all transitively nested anonymous functions.
 func WithClosures(fn *ssa.Function) []*ssa.Function {
 	out := withClosuresRaw(fn)
-	if InlineHelpers && fn.Parent() == nil && !inHelperScan {
+	if InlineHelpers && !NoWiden && fn.Parent() == nil && !inHelperScan {
 		out = append(out, HelperCallees(fn)...)
 	}
 	return out
@@ -814,7 +818,7 @@ func ScanBlocks(fn *ssa.Function) []*ssa.BasicBlock {
 	if fn == nil {
 		return nil
 	}
-	if !InlineHelpers || inHelperScan {
+	if !InlineHelpers || NoWiden || inHelperScan {
 		return fn.Blocks
 	}
 	out := append([]*ssa.BasicBlock(nil), fn.Blocks...)
